@@ -9,6 +9,7 @@ import (
 	"time"
 
 	ipfslog "berty.tech/go-ipfs-log"
+	"berty.tech/go-ipfs-log/entry"
 	"berty.tech/go-ipfs-log/iface"
 
 	"verifharness/evid"
@@ -64,7 +65,7 @@ func c14Child(run *evid.Run, batch, nb int, j *Journal) {
 	}
 }
 
-var c14Kinds = []string{"live-append", "live-merge", "cross", "ring", "cross", "live-append", "cross-4party", "stalled-reader", "ladder"}
+var c14Kinds = []string{"live-append", "live-merge", "cross", "ring", "cross", "live-append", "cross-4party", "stalled-reader", "ladder", "after-refusals"}
 var c14Regimes = []string{"free", "noise", "park-source-heads-read", "park-source-entries-read", "park-holding-own-lock"}
 
 // c14FourParty: two logs merge each other in loops while a separate goroutine appends to each of them. With two
@@ -327,6 +328,10 @@ func c14Scenario(run *evid.Run, i int, j *Journal) {
 	}
 	if kind == "ladder" {
 		c14Ladder(run, i, j)
+		return
+	}
+	if kind == "after-refusals" {
+		c14AfterRefusals(run, i, j)
 		return
 	}
 	regime := c14Regimes[(i/len(c14Kinds))%len(c14Regimes)]
@@ -610,3 +615,120 @@ func chainSizes(c []liveState, lo, hi int) []int {
 }
 
 var _ iface.IPFSLogEntry
+
+// c14AfterRefusals: the destination first refuses a number of merges (logs with mis-signed entries, 1-60 refused
+// entries in total), then merges from a source that is being appended to - and the source merges back. What
+// the refused merges left behind must not keep later merges from terminating or from taking everything.
+func c14AfterRefusals(run *evid.Run, i int, j *Journal) {
+	rng := rand.New(rand.NewSource(run.Seed*919 + int64(i)))
+	w := hx.NewWorld(run.Seed, 3, fmt.Sprintf("c14r-%d-%d", run.Seed, i), "hash", "cbor")
+	A, D := w.NewLog(0), w.NewLog(1)
+	target := []int{1, 5, 15, 16, 17, 31, 33, 60}[rng.Intn(8)]
+	label := fmt.Sprintf("#%d after-refusals: destination refuses merges with %d mis-signed entries in total, then merges a live source", i, target)
+	j.Log(map[string]any{"scenario": label})
+	p := newPlan(uint64(run.Seed)+uint64(i), i%2 == 0, map[*ipfslog.IPFSLog]string{A: "A", D: "D"})
+	activePlan.Store(p)
+	defer activePlan.Store(nil)
+	refused, accepted := 0, 0
+	ok, dead, dump := guardCall(func() {
+		for n := 0; refused < target; n++ {
+			m := 1 + rng.Intn(10)
+			if m > target-refused {
+				m = target - refused
+			}
+			src := w.NewLog(2)
+			var ents []iface.IPFSLogEntry
+			for k := 0; k < m; k++ {
+				e, err := src.Append(w.Ctx, []byte(fmt.Sprintf("refused-%d-%d", n, k)), nil)
+				if err != nil {
+					return
+				}
+				c := e.Copy()
+				sig := append([]byte(nil), e.GetSig()...)
+				sig[len(sig)/2] ^= 0x20
+				c.SetSig(sig)
+				ents = append(ents, c)
+			}
+			lo := w.LogOpts(w.LogID)
+			lo.Entries = entry.NewOrderedMapFromEntries(ents)
+			lo.Heads = []iface.IPFSLogEntry{ents[len(ents)-1]}
+			bad, err := ipfslog.NewLog(w.Store.API(), w.Idents[2], lo)
+			if err != nil {
+				return
+			}
+			if _, err := D.Join(bad, -1); err == nil {
+				accepted++
+			}
+			refused += m
+		}
+	}, 60*time.Second)
+	wit := func() map[string]any {
+		return map[string]any{"scenario": label, "seed": run.Seed, "hook_trace_tail": tail(p.traceCopy(), 60)}
+	}
+	if !ok {
+		if dead {
+			wt := wit()
+			wt["blocked_goroutines"] = dump
+			run.Violate("C14/deadlock", det("kind", "after-refusals", "phase", "refusals"), wt, "a merge never returned while the destination was refusing merges (%s)", label)
+		} else {
+			run.Inconclusive("watchdog fired without a deadlock state: " + label)
+		}
+		return
+	}
+	if accepted > 0 {
+		run.Violate("C14/join-error", det("kind", "after-refusals"), wit(), "%d merges of logs with mis-signed entries were accepted", accepted)
+	}
+	nops := 6 + rng.Intn(10)
+	var appended []string
+	done := runWorkers(3, func(g int) {
+		switch g {
+		case 0:
+			for n := 0; n < nops; n++ {
+				if e, err := A.Append(w.Ctx, []byte(fmt.Sprintf("live-%d", n)), nil); err == nil {
+					appended = append(appended, e.GetHash().String())
+				}
+			}
+		case 1:
+			for n := 0; n < nops; n++ {
+				if _, err := D.Join(A, -1); err != nil {
+					run.Violate("C14/join-error", det("kind", "after-refusals"), wit(), "merge from the live source failed: %v", err)
+				}
+			}
+		default:
+			for n := 0; n < nops/2; n++ {
+				_, _ = A.Join(D, -1)
+			}
+		}
+	})
+	ok, dead, dump = waitAll(done, p, 60*time.Second)
+	run.Eval(1)
+	run.Count("scenarios_after-refusals", 1)
+	run.Count("merges_refused_before_the_live_merges", refused)
+	if !ok {
+		if dead {
+			wt := wit()
+			wt["blocked_goroutines"] = dump
+			run.Violate("C14/deadlock", det("kind", "after-refusals", "refused_entries_ge_16", target >= 16), wt, "after the destination had refused %d mis-signed entries, merging from a live source never terminates (%s)", target, label)
+		} else {
+			run.Inconclusive("watchdog fired without a deadlock state: " + label)
+		}
+		return
+	}
+	// a final merge after everything stopped must bring the destination up to the source
+	if okf, deadf, dumpf := guardCall(func() { _, _ = D.Join(A, -1) }, 60*time.Second); !okf {
+		if deadf {
+			wt := wit()
+			wt["blocked_goroutines"] = dumpf
+			run.Violate("C14/deadlock", det("kind", "after-refusals", "phase", "final"), wt, "final merge never returned (%s)", label)
+		}
+		return
+	}
+	in := setOf(hx.Observe(D).Values)
+	for _, a := range appended {
+		if !in[a] {
+			run.Violate("C14/not-a-snapshot", det("kind", "after-refusals"), wit(), "after a final merge the destination misses an entry the source holds (%s)", label)
+			break
+		}
+	}
+	run.NonTrivial(fmt.Sprintf("after-refusals/%d/%s", target, model.DigestSeq(p.traceCopy())))
+}
